@@ -11,8 +11,10 @@
 EXTENDS Integers, Sequences, TLC, Json, IOUtils
 
 Trace == ndJsonDeserialize(IOEnv.TRACE_FILE)
-VARIABLES l, open, n, lenient
-vars == <<l, open, n, lenient>>
+VARIABLES l, open, n, lenient, hooked, pend
+vars == <<l, open, n, lenient, hooked, pend>>
+\* hooked: the client of this run has hooks installed; pend: the caller whose reply is complete but whose before-parse
+\* hook has not run yet - the hook is part of the call, no other caller's request may go out before it
 \* lenient: some callers of this run give up (their context expires) while they queue or while the device answers.  The
 \* library then leaves the abandoned call's reply on the in-order transport for the next caller (recorded observation
 \* E03-F1, outside C14's quantification), so WHOSE reply a caller reads is not judged in such a run; everything else is.
@@ -26,9 +28,15 @@ Judge(e) ==
             IF e.op = "write" THEN
                  \* (lenient runs: a caller that gave up has left its exchange unfinished without the transport noticing; that
                  \* another caller's exchange was still in progress shows when THAT caller touches the transport again)
-                 (IF open # 0 /\ open # e.p /\ ~lenient THEN "request-written-while-another-callers-exchange-is-open" ELSE "ok")
+                 (IF open # 0 /\ open # e.p /\ ~lenient THEN "request-written-while-another-callers-exchange-is-open"
+                  ELSE IF pend # 0 /\ pend # e.p /\ ~lenient THEN "request-written-before-the-previous-call-had-run-its-before-parse-hook"
+                  ELSE "ok")
             ELSE IF e.op = "read" THEN
                  (IF open # e.p THEN "transport-read-outside-the-callers-own-exchange" ELSE "ok")
+            ELSE IF e.op = "flush" THEN
+                 \* (discarding what is pending belongs to an exchange like its reads; a flush from a goroutine that is no
+                 \* caller - p = 0 - while a caller's exchange is open throws that caller's reply away)
+                 (IF open # 0 /\ open # e.p THEN "transport-flushed-while-another-callers-exchange-is-open" ELSE "ok")
             ELSE \* close / dial
                  (IF open # 0 THEN "connection-closed-or-replaced-while-an-exchange-is-open" ELSE "ok")
       [] e.ev = "done" ->
@@ -37,24 +45,27 @@ Judge(e) ==
             IF e.kind = "panic" THEN "panic"
             ELSE IF e.p <= n /\ e.kind = "ok" /\ e.unit # e.p /\ ~lenient THEN "caller-received-another-callers-reply"
             ELSE "ok"
+      [] e.ev = "hook" -> "ok"
       [] e.ev = "missing" -> "expected-transport-step-did-not-occur"
       [] e.ev = "stuck"   -> "goroutines-did-not-finish"
       [] e.ev = "race"    -> "data-race-reported-by-the-race-detector"
       [] e.ev = "crash"   -> "process-terminated-by-a-fatal-runtime-error"
       [] OTHER -> "unknown-event"
 
-Init == l = 1 /\ open = 0 /\ n = 0 /\ lenient = FALSE
+Init == l = 1 /\ open = 0 /\ n = 0 /\ lenient = FALSE /\ hooked = FALSE /\ pend = 0
 Next ==
     /\ l <= Len(Trace)
     /\ LET e == Trace[l] v == Judge(e) IN
        /\ IF v = "ok" THEN TRUE ELSE PrintT(<<"VERDICT", l, v>>)
-       /\ CASE e.ev = "reset" -> open' = 0 /\ n' = e.n /\ lenient' = e.ctx
+       /\ CASE e.ev = "reset" -> open' = 0 /\ n' = e.n /\ lenient' = e.ctx /\ hooked' = e.hooks /\ pend' = 0
             \* (a caller that has returned has no exchange open any more, whatever it left unread)
-            [] e.ev = "return" /\ e.p = open -> open' = 0 /\ UNCHANGED <<n, lenient>>
-            [] e.ev = "arrive" /\ e.op = "write" -> open' = e.p /\ UNCHANGED <<n, lenient>>
+            [] e.ev = "return" -> open' = (IF e.p = open THEN 0 ELSE open) /\ pend' = (IF e.p = pend THEN 0 ELSE pend) /\ UNCHANGED <<n, lenient, hooked>>
+            [] e.ev = "hook" -> pend' = (IF e.p = pend THEN 0 ELSE pend) /\ UNCHANGED <<open, n, lenient, hooked>>
+            [] e.ev = "arrive" /\ e.op = "write" -> open' = e.p /\ UNCHANGED <<n, lenient, hooked, pend>>
             \* (a read that delivers a fragment with more of the same reply to come leaves the exchange open)
-            [] e.ev = "done" /\ e.p = open /\ ((e.op = "read" /\ e.more = 0) \/ (e.op = "write" /\ e.err = 1)) -> open' = 0 /\ UNCHANGED <<n, lenient>>
-            [] OTHER -> UNCHANGED <<open, n, lenient>>
+            [] e.ev = "done" /\ e.p = open /\ ((e.op = "read" /\ e.more = 0) \/ (e.op = "write" /\ e.err = 1)) ->
+                  /\ open' = 0 /\ pend' = (IF hooked /\ e.op = "read" /\ e.err = 0 THEN e.p ELSE pend) /\ UNCHANGED <<n, lenient, hooked>>
+            [] OTHER -> UNCHANGED <<open, n, lenient, hooked, pend>>
     /\ l' = l + 1
 Spec == Init /\ [][Next]_vars
 AllConsumed == TLCGet("stats").diameter - 1 = Len(Trace)
